@@ -35,9 +35,9 @@ for root in sys.argv[1:]:
                     if cr:
                         clean.append({'replay': cr.group(1), 'reproduces_on_unchanged_tree': cr.group(2) != '0'})
                         continue
-                    mm = re.match(r'(C\d\d) exit=(\d+) evaluations=(\d*) rules=(.*)', line.strip())
+                    mm = re.match(r'(C\d\d) exit=(\d+) evaluations=(.*?) rules=(.*)', line.strip())
                     if mm:
-                        ran.append({'check': mm.group(1), 'tier': 'quick', 'exit': int(mm.group(2)), 'evaluations_until_stop': int(mm.group(3) or 0), 'rules': [r for r in mm.group(4).split(',') if r]})
+                        ran.append({'check': mm.group(1), 'tier': 'quick', 'exit': int(mm.group(2)), 'evaluations_until_stop': int(mm.group(3)) if mm.group(3).isdigit() else 0, 'rules': [r for r in mm.group(4).split(',') if r]})
                         if mm.group(2) == '1':
                             caught.append(mm.group(1))
             sid = f'{pid}-r{rnd}-{m}'
